@@ -698,7 +698,22 @@ def run(tier, seed):
 
 
 def replay_case(case, acc):
-    if "state" in case:
+    if "wrapper" in case:
+        grp = P.StabGroup.from_strings(case["state"])
+        op = tuple(case["op"])
+        for ch, _ in explore(lambda ch: check_wrapper_op(acc, grp, op, case["wrapper"], ch), max_exec=64):
+            pass
+    elif "state" in case and case["op"] == ["copy-then-gate"]:
+        from graphiq.backends.stabilizer.clifford_tableau import CliffordTableau
+        b = blob_from_desc(case["state"])
+        src = tab_of(b)
+        for how, cp in (("CliffordTableau(t)", CliffordTableau(src)), ("t.copy()", src.copy())):
+            cp, _ = real_step(cp, ("g1", "hadamard", 0))
+            cp, _ = real_step(cp, ("g2", "cnot", 0, 1))
+            if blob_of(src) != b:
+                acc.violation("aliasing", how, "copy-shares-state-with-its-source", case, "source unchanged", describe(blob_of(src)))
+                break
+    elif "state" in case:
         blob = blob_from_desc(case["state"])
         op = tuple(tuple(x) if isinstance(x, list) and case["op"][0] != "ptrace" else x for x in case["op"])
         setting = op[-1] if op[0] in ("mz", "mx", "my", "reset", "remove", "ptrace") else None
